@@ -159,6 +159,72 @@ example : ∃ s, runLabels .fixed init closedSampleLabels = some s ∧ 0 < s.clo
     s.subs.length = 1 :=
   ⟨_, rfl, by decide, by decide⟩
 
+/-- `delivery_can_complete`: a subscriber whose forwarder is in its loop and whose reader reads
+receives everything that is in its pipeline: there is a path of forwarder steps (`fwdTake`,
+`fwdDeliver` for this subscriber only) to a state where its buffer and the forwarder's hand are
+empty and `delivered` is what `delivered ++ hand ++ buf` was.  Together with `suffix_inv`: every
+value logged since it joined has then been received exactly once, in log order. -/
+theorem delivery_can_complete {v : Variant} {s : State} (hr : Reach v s) {i : Nat} {u : Sub}
+    (hi : s.subs[i]? = some u) (hl : inLoop u = true) :
+    ∃ s' u', Path v (fun l => l = .fwdTake i ∨ l = .fwdDeliver i) s s' ∧ s'.subs[i]? = some u' ∧
+      u'.buf = [] ∧ u'.hand = none ∧ u'.delivered = u.delivered ++ u.hand.toList ++ u.buf ∧
+      s'.log = s.log ∧ s'.bc = s.bc := by
+  let Good : State → Prop := fun x => Reach v x ∧ x.log = s.log ∧ x.bc = s.bc ∧
+    ∃ w, x.subs[i]? = some w ∧ inLoop w = true ∧ w.seq = u.seq
+  let Target : State → Prop := fun x => ∀ w, x.subs[i]? = some w → w.buf = [] ∧ w.hand = none
+  let μ : State → Nat := fun x => match x.subs[i]? with
+    | some w => 2 * w.buf.length + (if w.pc = .holding then 1 else 0)
+    | none => 0
+  have key := path_of_measure (v := v) (ok := fun l => l = .fwdTake i ∨ l = .fwdDeliver i)
+    Good Target μ (by
+      intro x ⟨hrx, hlog, hbc, w, hw, hlw, hseq⟩ hnt
+      have hwf := (wf_reach x hrx).subs i w hw
+      have hlt := lt_of_getElem? hw
+      have hpc : w.pc = .idle ∨ w.pc = .holding := by simpa [inLoop] using hlw
+      rcases hpc with hpc | hpc
+      · have hh := hwf.idle hpc
+        cases hb : w.buf with
+        | nil =>
+          exfalso; apply hnt
+          intro w' hw'; rw [hw] at hw'; cases hw'; exact ⟨hb, hh⟩
+        | cons y rest =>
+          refine ⟨.fwdTake i, setSub x i { w with hand := some y, buf := rest, pc := .holding },
+            Or.inl rfl, by simp [step, fwdTake, hw, hpc, hb],
+            ⟨?_, hlog, hbc, { w with hand := some y, buf := rest, pc := .holding }, ?_,
+              by simp [inLoop], ?_⟩, ?_⟩
+          · exact Reach.step (.fwdTake i) hrx (by simp [step, fwdTake, hw, hpc, hb])
+          · simp [setSub, hlt]
+          · rw [← hseq]; simp [Sub.seq, hh, hb]
+          · have e1 : (setSub x i { w with hand := some y, buf := rest, pc := .holding }).subs[i]? =
+                some { w with hand := some y, buf := rest, pc := .holding } := by simp [setSub, hlt]
+            simp only [μ, e1, hw]
+            simp [hpc, hb]; omega
+      · have hh := hwf.holding hpc
+        cases hx : w.hand with
+        | none => simp [hx] at hh
+        | some y =>
+          refine ⟨.fwdDeliver i,
+            setSub x i { w with delivered := w.delivered ++ [y], hand := none, pc := .idle },
+            Or.inr rfl, by simp [step, fwdDeliver, hw, hpc, hx],
+            ⟨?_, hlog, hbc, { w with delivered := w.delivered ++ [y], hand := none, pc := .idle }, ?_,
+              by simp [inLoop], ?_⟩, ?_⟩
+          · exact Reach.step (.fwdDeliver i) hrx (by simp [step, fwdDeliver, hw, hpc, hx])
+          · simp [setSub, hlt]
+          · rw [← hseq]; simp [Sub.seq, hx]
+          · have e1 : (setSub x i { w with delivered := w.delivered ++ [y], hand := none, pc := .idle }).subs[i]? =
+                some { w with delivered := w.delivered ++ [y], hand := none, pc := .idle } := by
+              simp [setSub, hlt]
+            simp only [μ, e1, hw]
+            simp [hpc])
+  obtain ⟨s', hp, ⟨_, hlog, hbc, w, hw, _, hseq⟩, ht⟩ := key s ⟨hr, rfl, rfl, u, hi, hl, rfl⟩
+  obtain ⟨hb, hh⟩ := ht w hw
+  refine ⟨s', w, hp, hw, hb, hh, ?_, hlog, hbc⟩
+  have : w.seq = w.delivered := by simp [Sub.seq, hb, hh]
+  rw [← this, hseq]; rfl
+
+example : ∃ (i : Nat) (u : Sub), sampleState.subs[i]? = some u ∧ inLoop u = true ∧ u.buf.length = 1 :=
+  ⟨0, _, rfl, by decide, by decide⟩
+
 /-! ### No deadlock: internal progress (model of the repaired code)
 
 `stalled i = true` means the reader of subscriber `i` never reads.  A path over
